@@ -113,13 +113,12 @@ Proof.
   destruct R as [<-|R]; [apply equivb_refl; exact Wy|apply py_eqb_equivb; auto].
 Qed.
 
-Lemma union_mk_perm_equivb ts ts' :
-  Forall wf_ty ts -> Permutation ts ts' -> equivb (union_mk ts) (union_mk ts') = true.
+Lemma union_shape_equivb l l' : Forall wf_ty l -> Permutation l l' ->
+  equivb (match dedup [] l with [t] => t | d => TUnion d end)
+         (match dedup [] l' with [t] => t | d => TUnion d end) = true.
 Proof.
-  intros W P.
-  assert (Wl : Forall wf_ty (flatten ts)) by (apply flatten_wf; exact W).
-  assert (Pl : Permutation (flatten ts) (flatten ts')) by (unfold flatten; apply Permutation_flat_map; exact P).
-  assert (Wl' : Forall wf_ty (flatten ts')).
+  intros Wl Pl.
+  assert (Wl' : Forall wf_ty l').
   { rewrite Forall_forall in *. intros x Hx. apply Wl. eapply Permutation_in; [apply Permutation_sym; exact Pl|exact Hx]. }
   pose proof (dedup_cover_equivb _ _ Wl Pl) as C.
   pose proof (dedup_cover_equivb _ _ Wl' (Permutation_sym Pl)) as C'.
@@ -130,18 +129,24 @@ Proof.
     apply andb_true_intro; split; apply forallb_forall; intros z Hz; apply existsb_exists.
     - destruct (H z Hz) as [y [Hy E]]. exists y. split; assumption.
     - destruct (H' z Hz) as [x [Hx E]]. exists x. split; [exact Hx|]. apply equivb_sym; auto. }
-  unfold union_mk.
   pose proof (dedup_wf [] _ Wl) as Wd. pose proof (dedup_wf [] _ Wl') as Wd'.
-  destruct (flatten ts) as [|t0 rest] eqn:El; destruct (flatten ts') as [|t0' rest'] eqn:El'.
+  destruct l as [|t0 rest]; destruct l' as [|t0' rest'].
   - reflexivity.
   - apply Permutation_nil in Pl. discriminate Pl.
   - apply Permutation_sym in Pl. apply Permutation_nil in Pl. discriminate Pl.
   - rewrite dedup_head in *.
     destruct (dedup [t0] rest) as [|a1 d1] eqn:D; destruct (dedup [t0'] rest') as [|a1' d1'] eqn:D'.
-    + destruct (C t0 (or_introl eq_refl)) as [y [[<-|[]] E]]. exact E.
+    + destruct (C t0 (or_introl eq_refl)) as [y [[<-|Hy] E]]; [exact E|rewrite D' in Hy; destruct Hy].
     + rewrite (dedup_rest_nil_perm t0 rest t0' rest' Wl Pl D) in D'. discriminate D'.
     + rewrite (dedup_rest_nil_perm t0' rest' t0 rest Wl' (Permutation_sym Pl) D') in D. discriminate D.
     + apply G; assumption.
+Qed.
+
+Lemma union_mk_perm_equivb ts ts' :
+  Forall wf_ty ts -> Permutation ts ts' -> equivb (union_mk ts) (union_mk ts') = true.
+Proof.
+  intros W P. unfold union_mk. apply union_shape_equivb; [apply flatten_wf; exact W|].
+  unfold flatten. apply Permutation_flat_map. exact P.
 Qed.
 
 (* ---------- Permutation versions of the map facts ---------- *)
